@@ -1,27 +1,50 @@
-// C19 harness (install/restore): executes histories of installMessageHandler() /
-// restorePreviousMessageHandler() / foreign qInstallMessageHandler() calls on the REAL library and
-// prints which handler is current after every call.  One history per input line:
-//   I = gQtLogger.installMessageHandler()      R = Logger::restorePreviousMessageHandler()
+// C19 harness (install/restore with logger object lifetime): executes histories of
+// installMessageHandler() / restorePreviousMessageHandler() / foreign qInstallMessageHandler()
+// calls by SEVERAL Logger objects that are created and destroyed on the REAL library and prints,
+// after every call, which handler is current and who receives a message emitted through qWarning().
+// One history per input line:
+//   I = gQtLogger.installMessageHandler()  (logger 0, the singleton)
+//   R = Logger::restorePreviousMessageHandler()  (static: needs no logger object)
 //   1..3 = qInstallMessageHandler(F<n>)        D = qInstallMessageHandler(nullptr)  (foreign reset)
-// output per call: L (the logger's handler), D (Qt's default handler), 1..3, ? (anything else).
+//   a b c = create logger 1 2 3    i j k = logger 1 2 3 .installMessageHandler()    x y z = destroy logger 1 2 3
+//       logger 1: heap (new / delete)   logger 2: in-place storage (like a stack / member object: the
+//       same address is reused by the next incarnation)   logger 3: QSharedPointer<Logger>::create()
+//   calls on a logger that does not exist (and creating one that does) are skipped (still reported).
+// `h_install fork`: every history starts from the pristine process state (forked child); default: reset through the API.
+// output per call, two characters:
+//   current handler: L (Logger::messageHandler), D (Qt's default handler), 1..3, ? (anything else)
+//   receiver of a message emitted now: d (Qt's default handler: text on stderr), 1..3 (foreign),
+//       p q r s (the pipeline of logger 0..3), - (nobody), ! (more than one)
 #ifdef VERIF_HEADER_ONLY
 #include "qtlogger.h"
 #else
 #include "qtlogger/qtlogger.h"
 #endif
 #include <QCoreApplication>
+#include <QSharedPointer>
 #include <iostream>
+#include <new>
 #include <string>
-static void F1(QtMsgType, const QMessageLogContext &, const QString &) { }
-static void F2(QtMsgType, const QMessageLogContext &, const QString &) { }
-static void F3(QtMsgType, const QMessageLogContext &, const QString &) { }
+#include <stdio.h>
+#include <stdlib.h>
+#include <unistd.h>
+#include <sys/stat.h>
+#include <sys/types.h>
+#include <sys/wait.h>
+using QtLogger::Logger;
+
+static std::string g_got;                     // receivers of the probe message
+static void F1(QtMsgType, const QMessageLogContext &, const QString &) { g_got += '1'; }
+static void F2(QtMsgType, const QMessageLogContext &, const QString &) { g_got += '2'; }
+static void F3(QtMsgType, const QMessageLogContext &, const QString &) { g_got += '3'; }
 static QtMessageHandler g_default = nullptr;
+static int g_errfd = -1;                      // the file fd 2 points to (Qt's default handler writes there)
 static char nm(QtMessageHandler h)
 {
     if (h == F1) return '1';
     if (h == F2) return '2';
     if (h == F3) return '3';
-    if (h == QtLogger::Logger::messageHandler) return 'L';
+    if (h == Logger::messageHandler) return 'L';
     if (h == g_default) return 'D';
     return '?';
 }
@@ -32,29 +55,128 @@ static QtMessageHandler cur()
     qInstallMessageHandler(h == g_default ? nullptr : h);
     return h;
 }
+static off_t errsize()
+{
+    struct stat st;
+    fflush(stderr);
+    return fstat(g_errfd, &st) == 0 ? st.st_size : 0;
+}
+// emits one message through Qt's macro and reports who got it
+static char probe()
+{
+    g_got.clear();
+    const off_t before = errsize();
+    qWarning("c19 probe");
+    if (errsize() != before) g_got += 'd';
+    if (before > (1 << 20)) { if (ftruncate(g_errfd, 0) == 0) lseek(g_errfd, 0, SEEK_SET); }
+    if (g_got.empty()) return '-';
+    return g_got.size() == 1 ? g_got[0] : '!';
+}
+static void tag(Logger *l, int k)
+{
+    *l << QtLogger::FunctionHandlerPtr::create([k](QtLogger::LogMessage &) { g_got += char('p' + k); return true; });
+}
+
+// the three non-singleton loggers
+static Logger *g_heap = nullptr;
+alignas(Logger) static unsigned char g_store[sizeof(Logger)];
+static Logger *g_inplace = nullptr;
+static QSharedPointer<Logger> g_shared;
+static Logger *get(int k) { return k == 0 ? &gQtLogger : k == 1 ? g_heap : k == 2 ? g_inplace : g_shared.data(); }
+static void create(int k)
+{
+    if (get(k)) return;
+    if (k == 1) g_heap = new Logger();
+    else if (k == 2) g_inplace = new (g_store) Logger();
+    else g_shared = QSharedPointer<Logger>::create();
+    tag(get(k), k);
+}
+static void destroy(int k)
+{
+    if (!get(k)) return;
+    if (k == 1) { delete g_heap; g_heap = nullptr; }
+    else if (k == 2) { g_inplace->~Logger(); g_inplace = nullptr; }
+    else g_shared.reset();
+}
+
+static std::string runHistory(const std::string &line)
+{
+    std::string out;
+    for (char c : line) {
+        switch (c) {
+        case 'I': gQtLogger.installMessageHandler(); break;
+        case 'R': Logger::restorePreviousMessageHandler(); break;
+        case '1': qInstallMessageHandler(F1); break;
+        case '2': qInstallMessageHandler(F2); break;
+        case '3': qInstallMessageHandler(F3); break;
+        case 'D': qInstallMessageHandler(nullptr); break;
+        case 'a': case 'b': case 'c': create(c - 'a' + 1); break;
+        case 'i': case 'j': case 'k': if (Logger *l = get(c - 'i' + 1)) l->installMessageHandler(); break;
+        case 'x': case 'y': case 'z': destroy(c - 'x' + 1); break;
+        default: continue;
+        }
+        out += nm(cur());
+        out += probe();
+    }
+    return out;
+}
+
 int main(int argc, char **argv)
 {
+    setenv("QT_LOGGING_TO_CONSOLE", "1", 1);       // Qt's default handler: stderr, never the journal
+    unsetenv("QT_MESSAGE_PATTERN");
+    // fd 2 -> an unlinked temporary file whose growth shows that Qt's default handler printed
+    {
+        char path[] = "/tmp/c19_install_XXXXXX";
+        g_errfd = mkstemp(path);
+        if (g_errfd < 0) return 3;
+        unlink(path);
+        if (dup2(g_errfd, 2) < 0) return 3;
+    }
     QCoreApplication app(argc, argv);
     g_default = qInstallMessageHandler(nullptr);
+    tag(&gQtLogger, 0);
+    // "h_install fork": every history runs in a forked child - the process-wide state it leaves (current handler,
+    // saved handler, active logger, logger objects) cannot leak into the next history whatever the library under test
+    // does with it, and a crash (use after free of a destroyed logger) costs one line ("!"), not the batch.
+    // Default (fast, for the big batches): one process; between histories the state is reset through the public API.
+    const bool forkEach = argc > 1 && std::string(argv[1]) == "fork";
     std::string line;
     while (std::getline(std::cin, line)) {
-        // clean state: restore clears the saved handler, then Qt's default handler
-        QtLogger::Logger::restorePreviousMessageHandler();
-        qInstallMessageHandler(nullptr);
-        std::string out;
-        for (char c : line) {
-            switch (c) {
-            case 'I': gQtLogger.installMessageHandler(); break;
-            case 'R': QtLogger::Logger::restorePreviousMessageHandler(); break;
-            case '1': qInstallMessageHandler(F1); break;
-            case '2': qInstallMessageHandler(F2); break;
-            case '3': qInstallMessageHandler(F3); break;
-            case 'D': qInstallMessageHandler(nullptr); break;
-            default: continue;
-            }
-            out += nm(cur());
+        if (!forkEach) {
+            // clean state: no extra logger, no active logger (a temporary logger is installed and destroyed),
+            // nothing saved (restore clears it), Qt's default handler
+            for (int k = 1; k <= 3; k++) destroy(k);
+            { Logger tmp; tmp.installMessageHandler(); }
+            Logger::restorePreviousMessageHandler();
+            qInstallMessageHandler(nullptr);
+            std::cout << runHistory(line) << "\n";
+            continue;
         }
+        int pfd[2];
+        if (pipe(pfd) != 0) return 3;
+        std::cout.flush();
+        const pid_t pid = fork();
+        if (pid < 0) return 3;
+        if (pid == 0) {
+            close(pfd[0]);
+            const std::string out = runHistory(line);
+            size_t off = 0;
+            while (off < out.size()) { ssize_t n = write(pfd[1], out.data() + off, out.size() - off); if (n <= 0) break; off += size_t(n); }
+            _exit(0);
+        }
+        close(pfd[1]);
+        std::string out;
+        char buf[256];
+        for (;;) { ssize_t n = read(pfd[0], buf, sizeof buf); if (n <= 0) break; out.append(buf, size_t(n)); }
+        close(pfd[0]);
+        int st = 0;
+        waitpid(pid, &st, 0);
+        if (!WIFEXITED(st) || WEXITSTATUS(st) != 0) out += '!';
         std::cout << out << "\n";
     }
+    for (int k = 1; k <= 3; k++) destroy(k);
+    Logger::restorePreviousMessageHandler();
+    qInstallMessageHandler(nullptr);
     return 0;
 }
